@@ -383,10 +383,11 @@ theorem startsWith_https_canonical (rest : Str) : startsWith (BASE ++ rest) (lit
   simp [httpsL, startsWith, List.isPrefixOf]
 
 /-- **parsing a canonical url is routing its path and query**, whatever `allow_relative_urls`
-(the builders' paths have no repeated slash: the squeeze leaves them alone) -/
+(the builders' paths have no blank around a segment and no repeated slash: the strip and the
+squeeze leave them alone) -/
 theorem parse_canonical (p' q : Str) (rel : Bool)
     (hp : ∀ c ∈ '/' :: p', pathChar c = true) (hq : ∀ c ∈ q, queryChar c = true)
-    (hnd : hasInfix ('/' :: p') dblSlash = false) :
+    (hnd : hasInfix ('/' :: p') dblSlash = false) (hst : stripSegments ('/' :: p') = '/' :: p') :
     parse_facebook_url (BASE ++ ('/' :: p' ++ qs q)) rel = parseSplit ⟨httpsL, hostL, '/' :: p', q, []⟩ := by
   rw [parse_facebook_url_eq]
   have hres : resolved (BASE ++ ('/' :: p' ++ qs q)) rel = some (BASE ++ ('/' :: p' ++ qs q)) := by
@@ -394,6 +395,6 @@ theorem parse_canonical (p' q : Str) (rel : Bool)
     simp only [startsWith_https_canonical, Bool.not_true, Bool.and_false, Bool.false_and, Bool.false_eq_true,
       if_false, isFacebookUrlB_canonical p' q hp hq, if_true]
   rw [hres]
-  simp only [safe_urlsplit_canonical p' q hp hq, squeezePath, squeeze_of_noDbl _ hnd]
+  simp only [safe_urlsplit_canonical p' q hp hq, squeezePath, hst, squeeze_of_noDbl _ hnd]
 
 end Ural.Facebook
